@@ -32,6 +32,7 @@ CONSTANTS Ids,          \* key values that scenarios may use
           MaxOps,       \* bound on the number of operations
           Stable,       \* BOOLEAN: stable row ids enabled
           OpKinds,      \* subset of {"append","delete","update","upsert","compact","overwrite","restore","checkout"}
+          MaxBatch,     \* rows per appended / overwritten batch (1 or 2)
           Deviations    \* subset of {"RestoreRewindsRowIds", "UpdateCreatedAtFromRowIdBits"}
 
 NULL == -1
@@ -380,6 +381,10 @@ DoRestore(h, ver) ==
   /\ nops' = nops + 1
 
 FreshRows == {<<[id |-> i, val |-> v]>> : i \in Ids, v \in AllVals}
+             \cup (IF MaxBatch >= 2
+                   THEN {<<[id |-> p[1], val |-> v], [id |-> p[2], val |-> w]>> :
+                           p \in {q \in Ids \X Ids : q[1] # q[2]}, v \in AllVals, w \in AllVals}
+                   ELSE {})
 
 Next ==
   \/ \E h \in Handles, v \in 1..MaxVersions : Checkout(h, v)
